@@ -29,6 +29,8 @@ type Tokenizer struct {
 	mi        int
 	num       gen.Number
 	rn        rune
+	hi        rune // pending high surrogate from a \u escape
+	hiEnd     int  // len(tmp) right after the placeholder for hi
 	mode      string
 	nextMode  string
 }
@@ -68,6 +70,7 @@ func (t *Tokenizer) Parse(buf []byte, handler TokenHandler) (err error) {
 	t.line = 1
 	t.mode = valueMap
 	t.mi = 0
+	t.hi = 0
 	// Skip BOM if present.
 	if 3 < len(buf) && buf[0] == 0xEF {
 		if buf[1] == 0xBB && buf[2] == 0xBF {
@@ -95,6 +98,7 @@ func (t *Tokenizer) Load(r io.Reader, handler TokenHandler) (err error) {
 	t.noff = -1
 	t.line = 1
 	t.mi = 0
+	t.hi = 0
 	buf := make([]byte, readBufSize)
 	eof := false
 	var cnt int
@@ -359,6 +363,7 @@ func (t *Tokenizer) tokenizeBuffer(buf []byte, last bool) error {
 			t.mode = expSignMap
 			continue
 		case strQuote:
+			t.hi = 0
 			t.mode = t.nextMode
 			if t.nextMode == colonMap {
 				t.handler.Key(string(t.tmp))
@@ -413,8 +418,19 @@ func (t *Tokenizer) tokenizeBuffer(buf []byte, last bool) error {
 				if len(t.runeBytes) < 6 {
 					t.runeBytes = make([]byte, 6)
 				}
+				if t.hi != 0 && t.hiEnd == len(t.tmp) && 0xDC00 <= t.rn && t.rn <= 0xDFFF {
+					// The low half of a surrogate pair. Replace the placeholder
+					// written for the high half with the combined code point.
+					t.tmp = t.tmp[:len(t.tmp)-3]
+					t.rn = 0x10000 + (t.hi-0xD800)<<10 + (t.rn - 0xDC00)
+				}
+				t.hi = 0
 				n := utf8.EncodeRune(t.runeBytes, t.rn)
 				t.tmp = append(t.tmp, t.runeBytes[:n]...)
+				if 0xD800 <= t.rn && t.rn <= 0xDBFF {
+					t.hi = t.rn
+					t.hiEnd = len(t.tmp)
+				}
 				t.mode = stringMap
 			}
 			continue
